@@ -417,6 +417,24 @@ func runParseCase(c *Ctx, expr string, label string) parseOut {
 			return o
 		}
 	}
+	if o.status == "" {
+		// nothing of the text may be lost on the way to the parser: the tokens of the text, nothing skipped, spell the text
+		if e := strings.Trim(expr, " \t\r\n"); e != "" {
+			var sb strings.Builder
+			st := safeCallT(3*time.Second, func() string {
+				t := ctok.NewExpressionTokenizer()
+				setOpts(t, 0)
+				for _, k := range t.TokenizeBuffer(e) {
+					sb.WriteString(k.Value())
+				}
+				return ""
+			})
+			if st == "" && sb.String() != e {
+				c.fail(Failure{Kind: "oracle", Op: "expr " + strRunes(expr), Impl: o.implLine(), Note: fmt.Sprintf("the tokens of %q spell %q: characters were dropped or changed before the parser saw them (no input may be reinterpreted by ignoring parts of it)", e, sb.String())})
+				return o
+			}
+		}
+	}
 	if !o.lexical && o.status == "" {
 		if msg := lexClassOracle(expr, o.initial); msg != "" {
 			c.fail(Failure{Kind: "oracle", Op: "expr " + strRunes(expr), Impl: o.implLine(), Note: msg})
